@@ -50,6 +50,11 @@ func GenerateCases(seed int64, n, blocks int, outPath, scratch, jsonPath, profil
 				}
 			}
 		}
+		for k, v := range h.Stats {
+			if strings.HasPrefix(k, "ev:") || strings.HasPrefix(k, "why:") {
+				st.ByNote[k] += v
+			}
+		}
 		if h.Stats["blocks-with-valupdates"] > 0 {
 			st.ValUpdateBlocks += h.Stats["blocks-with-valupdates"]
 			nontrivial = true
